@@ -1599,6 +1599,9 @@ func (w *World) Inline(e *Expr) *Expr {
 	if e.Op != "call" || e.Callee == nil || e.Callee.Blocks == nil {
 		return nil
 	}
+	if out := w.inlineConstArgs(e); out != nil {
+		return out
+	}
 	sum := w.Summary(e.Callee)
 	params := map[string]*Expr{}
 	ps := e.Callee.Params
@@ -3133,4 +3136,82 @@ func nonNilAt(x ssa.Value, p *ssa.BasicBlock) bool {
 		}
 	}
 	return false
+}
+
+// inlineConstArgs: the call hands constants to parameters the callee decides on (`unitFee(ctx, k, feeKindRegister)` with
+// `switch kind { case feeKindRegister: ... }`): only the returns that can be reached with those constants count. nil when no
+// argument is a constant the callee tests.
+func (w *World) inlineConstArgs(e *Expr) *Expr {
+	g := e.Callee
+	if g == nil || len(g.Blocks) == 0 || w.constBusy[g] {
+		return nil
+	}
+	consts := map[string]string{}
+	for i, p := range g.Params {
+		if i < len(e.Args) && e.Args[i] != nil && e.Args[i].Op == "const" && e.Args[i].Name != "nil" {
+			if bt, ok := p.Type().Underlying().(*types.Basic); ok && bt.Info()&(types.IsInteger|types.IsString|types.IsBoolean) != 0 {
+				consts[p.Name()] = e.Args[i].Name
+			}
+		}
+	}
+	if len(consts) == 0 {
+		return nil
+	}
+	if w.constBusy == nil {
+		w.constBusy = map[*ssa.Function]bool{}
+	}
+	w.constBusy[g] = true
+	defer delete(w.constBusy, g)
+	cut := w.EstablishedEdges(g, func(p Pred) bool {
+		op, x, y, ok := p.Cmp()
+		if !ok {
+			return false
+		}
+		if y.Op == "param" && x.Op == "const" {
+			x, y = y, x
+		}
+		k, has := consts[x.Name]
+		if x.Op != "param" || !has || y.Op != "const" {
+			return false
+		}
+		switch op {
+		case "==":
+			return y.Name != k
+		case "!=":
+			return y.Name == k
+		}
+		return false
+	}, 0)
+	if len(cut) == 0 {
+		return nil
+	}
+	b := w.builderFor(g)
+	nres := g.Signature.Results().Len()
+	alts := make([][]*Expr, nres)
+	for _, ret := range Returns(g) {
+		if !Reaches(g, ret, Cut{Edges: cut}) {
+			continue
+		}
+		for i, v := range ret.Results {
+			alts[i] = append(alts[i], b.expr(v))
+		}
+	}
+	t := &Expr{Op: "tuple"}
+	for i := 0; i < nres; i++ {
+		if len(alts[i]) == 0 {
+			return nil
+		}
+		t.Args = append(t.Args, mkPhi(alts[i]))
+	}
+	params := map[string]*Expr{}
+	for i, p := range g.Params {
+		if i < len(e.Args) {
+			params[p.Name()] = e.Args[i]
+		}
+	}
+	out := Subst(t, params)
+	if out.Op == "tuple" && len(out.Args) == 1 {
+		return out.Args[0]
+	}
+	return out
 }
